@@ -449,7 +449,7 @@ func verifyFuncMode(w *World, ss *SpecSet, fn *ssa.Function, sweep, finder bool)
 	}
 	entry := copyMem(e.mem)
 	// every `assert before/after Callee#k` must name a call that exists (otherwise the clause would silently vanish)
-	if ct != nil && (len(ct.Before) > 0 || len(ct.After) > 0) {
+	if ct != nil && (len(ct.Before) > 0 || len(ct.After) > 0 || len(ct.CoverBefore) > 0) {
 		byName := map[string]int{}
 		for _, b := range fn.Blocks {
 			for _, in := range b.Instrs {
@@ -474,6 +474,9 @@ func verifyFuncMode(w *World, ss *SpecSet, fn *ssa.Function, sweep, finder bool)
 			chk(key)
 		}
 		for key := range ct.After {
+			chk(key)
+		}
+		for key := range ct.CoverBefore {
 			chk(key)
 		}
 	}
